@@ -13,7 +13,8 @@ import os
 from dataclasses import dataclass, field
 from typing import Any, Iterator
 
-from .inline import fold_new_helpers, load_known  # noqa: E402
+from .alias import propagate_new_aliases  # noqa: E402
+from .inline import fold_new_helpers, load_known, load_known_locals  # noqa: E402
 
 LIB_FILES = ('bubus/service.py', 'bubus/models.py', 'bubus/helpers.py', 'bubus/logging.py', 'bubus/__init__.py')
 
@@ -50,7 +51,60 @@ def normalise_syntax(tree: ast.AST) -> ast.AST:
             new.is_star = True  # type: ignore[attr-defined]
             return ast.copy_location(new, node)
 
-    return T().visit(tree)
+    tree = T().visit(tree)
+    return _MatchToIf().visit(tree)
+
+
+class _MatchToIf(ast.NodeTransformer):
+    """`match subject:` over literal / singleton / class / wildcard patterns is the corresponding if / elif chain (other patterns stay a Match
+    node, which the CFG treats as a non-deterministic choice between its cases)."""
+
+    counter = 0
+
+    def _test(self, subj: ast.expr, pat: ast.pattern) -> ast.expr | None:
+        import copy
+
+        s = lambda: copy.deepcopy(subj)  # noqa: E731
+        if isinstance(pat, ast.MatchValue):
+            return ast.Compare(left=s(), ops=[ast.Eq()], comparators=[pat.value])
+        if isinstance(pat, ast.MatchSingleton):
+            return ast.Compare(left=s(), ops=[ast.Is()], comparators=[ast.Constant(value=pat.value)])
+        if isinstance(pat, ast.MatchAs) and pat.pattern is None and pat.name is None:
+            return ast.Constant(value=True)
+        if isinstance(pat, ast.MatchOr):
+            parts = [self._test(subj, p) for p in pat.patterns]
+            return None if any(p is None for p in parts) else ast.BoolOp(op=ast.Or(), values=parts)
+        if isinstance(pat, ast.MatchClass) and not pat.patterns and not pat.kwd_patterns:
+            return ast.Call(func=ast.Name(id='isinstance', ctx=ast.Load()), args=[s(), pat.cls], keywords=[])
+        return None
+
+    def visit_Match(self, node):  # noqa: N802
+        self.generic_visit(node)
+        pre: list[ast.stmt] = []
+        subj = node.subject
+        if not isinstance(subj, (ast.Name, ast.Attribute, ast.Constant)):
+            _MatchToIf.counter += 1
+            nm = f'__inl_match_{_MatchToIf.counter}'
+            pre.append(ast.copy_location(ast.Assign(targets=[ast.Name(id=nm, ctx=ast.Store())], value=subj), node))
+            subj = ast.Name(id=nm, ctx=ast.Load())
+        tests = []
+        for case in node.cases:
+            t = self._test(subj, case.pattern)
+            if t is None:
+                return node
+            if case.guard is not None:
+                t = ast.BoolOp(op=ast.And(), values=[t, case.guard])
+            tests.append(t)
+        chain: list[ast.stmt] = []
+        for case, t in reversed(list(zip(node.cases, tests))):
+            if isinstance(t, ast.Constant) and t.value is True:
+                chain = list(case.body)
+            else:
+                chain = [ast.copy_location(ast.If(test=t, body=list(case.body), orelse=chain), case.pattern)]
+        out = pre + (chain or [ast.copy_location(ast.Pass(), node)])
+        for x in out:
+            ast.fix_missing_locations(x)
+        return out
 
 
 def set_parents(tree: ast.AST) -> None:
@@ -218,6 +272,7 @@ class Program:
         self.digest = ''
         self.fold_log: list[str] = []  # new private helpers folded into their callers (sa/inline.py)
         self._known = load_known()
+        self._known_locals = load_known_locals()
         self._load()
 
     # ------------------------------------------------------------------ loading
@@ -237,6 +292,7 @@ class Program:
                 raise AnchorError(f'{rel} does not parse: {e}')
             tree = normalise_syntax(tree)
             self.fold_log.extend(fold_new_helpers(tree, rel, self._known))
+            self.fold_log.extend(propagate_new_aliases(tree, rel, self._known_locals))
             set_parents(tree)
             mi = ModuleInfo(rel, src, tree)
             self.modules[rel] = mi
